@@ -487,7 +487,7 @@ def run(ctx):
         for c in json.load(open(path))["cases"]:
             corpus.append(c)
     rcases = [(c["nparams"], c["criteria"], [Rec(*r) for r in c["recorded"]]) for c in corpus if c["kind"] == "results"]
-    n_random = ctx.pick(450, 9000)
+    n_random = ctx.pick(450, 12000)
     for _ in range(n_random):
         rcases.append(gen_results_case(rng))
 
@@ -541,7 +541,7 @@ def run(ctx):
 
     # ---- indicators -----------------------------------------------------------------------
     icases = [(c.get("style", "corpus"), c["ref"], c["comp"], c.get("shift"), c.get("only")) for c in corpus if c["kind"] == "indicator"]
-    for _ in range(ctx.pick(500, 8000)):
+    for _ in range(ctx.pick(500, 10000)):
         icases.append(gen_indicator_case(rng) + (None,))
     cases, expected, meta = [], [], []
     istats = {"styles": {}, "eps_values": {"zero": 0, "positive": 0, "inf": 0, "error": 0}, "gd_values": {"zero": 0, "positive": 0, "error": 0},
@@ -650,7 +650,10 @@ def run(ctx):
     ctx.rule = ("result queries: 1-3 parameters, 1-3 goals with criteria drawn from {absent, minimize, maximize}, 0-10 recorded "
                 "individuals whose tags are drawn unsorted and repeated from a pool (plus ascending/descending/constant/all -1 "
                 "templates), values from small grids with ties, signed zeros, adjacent floats, huge magnitudes and infinities, "
-                "duplicated individuals; every query method is run on every case (all tags, an absent tag and the default), a "
+                "duplicated individuals, front numbers 1-3; every query method (population, Problem.population/last_population/"
+                "populations, table, parameters, costs, the three listings sorted and unsorted, goal/parameter_on_index, "
+                "pareto_individuals/front/values, get_population_ids, find_optimum per goal) is run on every case (all tags, an "
+                "absent tag and the default), a "
                 "case is non-trivial with >= 2 individuals; distinct = distinct (parameters, criteria, recording). Indicators: "
                 "point sets of 1-6 points with 1-4 dyadic coordinates (random, identical, subset, shifted by d >= 0, shifted by "
                 "d < 0, near-duplicates, empty/zero-dimensional), non-trivial when well formed with >= 3 points in total; "
@@ -664,7 +667,8 @@ LEVEL_TEXT = ("Machine-checked Coq theorems over a model of Problem.populations/
               "a strict weak order (instantiated at binary64): population queries are the filter of the recording by tag (default: "
               "largest tag), table rows are each individual's vector followed by its own costs and a permutation of the recording, "
               "the sorted listings are the components of one sorted arrangement of the individuals' own (key, value) pairs, "
-              "find_optimum returns the first recorded individual whose named cost is minimal (maximal for a maximised goal). "
+              "find_optimum returns the first recorded individual whose named cost is minimal (maximal for a maximised goal), "
+              "the Pareto views are the queried population's front-1 individuals and their own costs. "
               "epsilon_add (exact rationals): non-negative max-min-max, 0 when every reference point is computed, d for the "
               "reference set shifted by d >= 0. gd (reals): mean distance to a nearest reference point, zero iff the computed "
               "points are reference points; its executable rational enclosure is proved to contain the real value. The models "
@@ -672,5 +676,7 @@ LEVEL_TEXT = ("Machine-checked Coq theorems over a model of Problem.populations/
               "compared exactly, epsilon_add exactly, gd against the proved enclosure.")
 LEVEL_NOTE = ("Trusted: Coq kernel + vm_compute; FloatAxioms for the binary64 order instance; classical-reals axioms for gd; the "
               "hand-written models and the Python harness. Sorted listings are proved paired up to `==` on keys (exactly when "
-              "`==` is identity: -0.0/0.0 keys can swap places). Indicator theorems are over Q/R; binary64 rounding is checked "
+              "`==` is identity: -0.0/0.0 keys can swap places). Cases that differ from the model only in an order the property "
+              "does not fix (rows/groups, ties) are counted as order-only differences, not as mismatches (0 on the current code). "
+              "Indicator theorems are over Q/R; binary64 rounding is checked "
               "on the sampled dyadic point sets only. Correspondence is sampled, the theorems are unbounded.")
